@@ -122,10 +122,15 @@ struct Scn {
     ops: Vec<(TOp, &'static str)>,
 }
 
-const KINDS: [&str; 11] = [
+const KINDS: [&str; 12] = [
     "random", "forward", "backward", "repeat_same_time", "boundary", "near_boundary", "beyond_end",
-    "astronomical", "negative", "negative_zero", "op",
+    "astronomical", "negative", "negative_zero", "op", "spin",
 ];
+
+/// An update of kind "spin" is preceded by this many evaluations of the same object, at the same
+/// time, into a scratch target nobody looks at: a timeline that has been played for a long while
+/// (thousands of evaluations of one object) must still answer like a fresh one.
+const SPIN: usize = 6000;
 
 fn kind_static(s: &str) -> &'static str {
     KINDS.iter().copied().find(|k| *k == s).unwrap_or("op")
@@ -349,7 +354,17 @@ fn generate(rng: &mut Rng, property: &str, deep: bool) -> Scn {
     let p_drop = *rng.pick(&[0.0, 0.05]);
     let p_dirty = *rng.pick(&[0.0, 0.1, 0.3]);
     let scrub = rng.below(4);
-    while ops.len() < n_ops {
+    // A marathon run continues the finished schedule with a long tail drawn from a stream of its
+    // own, forked from one extra value at the end of the main stream (all other runs, and the
+    // first part of this one, stay what they were).
+    let mut target_ops = n_ops;
+    let mut tail_rng: Option<Rng> = None;
+    loop {
+    while ops.len() < target_ops {
+        let rng: &mut Rng = match tail_rng.as_mut() {
+            Some(r) => r,
+            None => &mut *rng,
+        };
         let (obj, spec_idx) = *rng.pick(&alive);
         if rng.chance(p_start) {
             ops.push((
@@ -461,6 +476,28 @@ fn generate(rng: &mut Rng, property: &str, deep: bool) -> Scn {
             }
         }
     }
+    if tail_rng.is_some() {
+        break;
+    }
+    let fork = rng.next_u64();
+    if fork % 97 == 0 {
+        let mut r = Rng::new(fork ^ 0x6d61_7261_7468_6f6e);
+        target_ops = ops.len() + r.range(200, if deep { 4500 } else { 1500 }) as usize;
+        tail_rng = Some(r);
+    } else {
+        break;
+    }
+    }
+    // in the tail of a marathon run one or two updates are made on a long-played object
+    if let Some(r) = tail_rng.as_mut() {
+        let updates: Vec<usize> = (n_ops.min(ops.len())..ops.len()).filter(|i| matches!(ops[*i].0, TOp::Update { .. })).collect();
+        if !updates.is_empty() {
+            for _ in 0..r.range(1, 2) {
+                let i = updates[r.usize_below(updates.len())];
+                ops[i].1 = "spin";
+            }
+        }
+    }
     Scn { pool, slots, ops }
 }
 
@@ -553,6 +590,13 @@ fn execute(scn: &Scn, property: &str) -> RunOutcome {
         match catch(|| {
             let o = Obj::build(spec);
             let m = o.meta();
+            // every public trait of a timeline is part of "never panics": formatting it for a
+            // log line (`{:?}`) must not panic either, whatever its (finite) configuration
+            if property == "C20" {
+                if let Obj::Single(x) = &o {
+                    std::hint::black_box(format!("{x:?}").len());
+                }
+            }
             (o, m)
         }) {
             Ok((obj, meta)) => live.push(Some(Live {
@@ -676,6 +720,17 @@ fn execute(scn: &Scn, property: &str) -> RunOutcome {
                     continue;
                 };
                 let before = slots[*slot].clone();
+                if *kind == "spin" {
+                    let mut scratch = before.clone();
+                    if let Err(p) = catch(|| {
+                        for _ in 0..SPIN {
+                            l.obj.update(&mut scratch, *t);
+                        }
+                    }) {
+                        bail_panic!(p, step, format!("update at t={t:?} (repeated)"));
+                    }
+                    out.count("probe.long_played_object_queried");
+                }
                 let mut target = before.clone();
                 if let Err(p) = catch(|| l.obj.update(&mut target, *t)) {
                     bail_panic!(p, step, format!("update at t={t:?}"));
